@@ -25,6 +25,7 @@
 #ifndef PHQ_ANGLE_HPP
 #define PHQ_ANGLE_HPP
 
+#include <algorithm>
 #include <cmath>
 #include <cstddef>
 #include <functional>
@@ -125,6 +126,19 @@ class VectorArea;
 template <typename NumericType>
 class Velocity;
 
+namespace Internal {
+
+/// \brief Returns the arc cosine of a given cosine after clamping it to the interval [-1, 1].
+/// Floating-point rounding can push the computed cosine of the angle between two parallel or
+/// antiparallel vectors slightly outside of this interval, where std::acos returns NaN.
+template <typename NumericType>
+[[nodiscard]] inline NumericType ArcCosine(const NumericType cosine) noexcept {
+  return std::acos(
+      std::clamp(cosine, static_cast<NumericType>(-1), static_cast<NumericType>(1)));
+}
+
+}  // namespace Internal
+
 /// \brief Plane angle between two lines or dihedral angle between two planes.
 template <typename NumericType = double>
 class Angle : public DimensionalScalar<Unit::Angle, NumericType> {
@@ -140,12 +154,13 @@ public:
   /// vectors.
   Angle(const PlanarVector<NumericType>& planar_vector_1,
         const PlanarVector<NumericType>& planar_vector_2)
-    : Angle(std::acos(planar_vector_1.Dot(planar_vector_2)
-                      / (planar_vector_1.Magnitude() * planar_vector_2.Magnitude()))) {}
+    : Angle(Internal::ArcCosine(planar_vector_1.Dot(planar_vector_2)
+                                / (planar_vector_1.Magnitude() * planar_vector_2.Magnitude()))) {}
 
   /// \brief Constructor. Constructs an angle by computing the angle between two given vectors.
   Angle(const Vector<NumericType>& vector1, const Vector<NumericType>& vector2)
-    : Angle(std::acos(vector1.Dot(vector2) / (vector1.Magnitude() * vector2.Magnitude()))) {}
+    : Angle(Internal::ArcCosine(
+        vector1.Dot(vector2) / (vector1.Magnitude() * vector2.Magnitude()))) {}
 
   /// \brief Constructor. Constructs an angle by computing the angle between a given planar vector
   /// and planar direction.
